@@ -184,17 +184,18 @@ def norm_dy(x):
 
 
 def stream_stale(ctx):
-    st = ctx.stream('stale_exception', 'history of two evaluations in ONE process: a formula outside the domain (absent key), then 1+2; '
-                    'non-trivial = the first evaluation failed')
+    st = ctx.stream('stale_exception', 'history of two evaluations over a 2-row table in ONE process: a formula outside the domain '
+                    '(absent key), then x + 2; non-trivial = the first evaluation failed')
     r = ctx.impl('c01_stale.py', {})
     failed_first = r.get('second') != 'no error'
-    st.record({'history': ['Elem({1: 1}, 7)', '1 + 2'], 'observed': r}, nontrivial=failed_first)
-    st.record({'history': ['log(-1)', '1 + 2'], 'observed': r.get('first')}, nontrivial=True)
-    if failed_first and r.get('after') != 3.0:
+    st.record({'history': ["Elem({1: x}, 7) on rows x=1,2", 'x + 2 on the same rows'], 'observed': r}, nontrivial=failed_first)
+    st.record({'history': ['x + 2 alone'], 'expected': [3.0, 4.0]}, nontrivial=True)
+    if failed_first and r.get('after') != [3.0, 4.0]:
         ctx.violation('C01/known/engine-stale-exception',
                       'after one failing evaluation, a valid formula evaluated in the same process fails',
-                      {'history': ['Elem({1: Numeric(1)}, Numeric(7)).get_value_c()', '(Numeric(1) + Numeric(2)).get_value_c()']},
-                      3.0, r.get('after_exc', r.get('after')))
+                      {'history': ["Elem({1: Variable('x')}, Numeric(7)).get_value_c(database=db, prepare_ids=True)",
+                                   "(Variable('x') + Numeric(2)).get_value_c(database=db, prepare_ids=True)"], 'rows': [{'x': 1.0}, {'x': 2.0}]},
+                      [3.0, 4.0], r.get('after_exc', r.get('after')))
 
 
 def run(ctx):
